@@ -429,6 +429,39 @@ def main(ctx):
                             containers=["scalar", "list", "tuple", "array"],
                             ops=["extract_fields", "reorder_fields", "remove_fields", "split_fields"]))
 
+    # names that differ from an existing name only by white space (a trailing / leading blank, a tab): 'mag ' is not
+    # 'mag' - it is a missing name where only 'mag' exists, and its own field where both exist (round 8: a comparison
+    # that strips trailing blanks)
+    def expand_ws(u):
+        fields, shape = u
+        names = [f[0] for f in fields]
+        cands = [names + [names[0] + " "], names + [" " + names[0]], names + [names[0] + "\t"], names + [names[-1] + "  "],
+                 names + [names[0].strip()]]
+        seen = set()
+        for cand in cands:
+            cand = list(dict.fromkeys(cand))
+            for sel in selections(cand, NSEL):
+                if sel in seen:
+                    continue
+                seen.add(sel)
+                for cont in ("scalar", "list", "tuple", "array"):
+                    if cont == "scalar" and len(sel) != 1:
+                        continue
+                    for strict in (True, False):
+                        yield ("extract", fields, shape, cseed, sel, cont, strict)
+                        yield ("reorder", fields, shape, cseed, sel, cont, strict)
+                    if cont in ("scalar", "list"):
+                        yield ("remove", fields, shape, cseed, sel, cont, None)
+                    yield ("split", fields, shape, cseed, sel, cont, True)
+
+    WM, WMB, WBM, WMT = ("mag", ">f8", ()), ("mag ", "<i4", ()), (" mag", "S3", ()), ("mag\t", "<i2", (2,))
+    ws_units = [(fl, sh) for fl in ((WM, WMB), (WMB, WM), (WM, WBM), (WMB, FS, WM), (WM, WMT), (WMB, WBM, WM), (WMB,), (WM,))
+                for sh in MAIN_SHAPES[:2]]
+    ws_units += base_units(F7, 2, 1)
+    ctx.lattice("select-whitespace-names", ws_units, one_select, expand=expand_ws,
+                bounds=dict(variants=["name+blank", "blank+name", "name+tab", "name+two blanks", "stripped name"],
+                            tables_with_both=["mag / 'mag '", "mag / ' mag'", "mag / 'mag\\t'"], max_names=NSEL))
+
     # ======================================================================
     # part 2: add_fields
     def one_add(case, rec):
